@@ -534,6 +534,7 @@ func (p Prop) Run(r *core.Run) *core.Violation {
 	sim := r.Sim
 	sim.OrderMode = verifsim.OrderCanonical
 	sim.Activate()
+	sim.Budget(200_000_000) // two observation passes over ~80 observables
 	base, _, d1 := observe(r, sc, true)
 	baseEvents := sim.IterEvents
 	sim.OrderMode = verifsim.OrderTape
